@@ -78,27 +78,41 @@ Theorem c09_names_set_stricter_refuted :
 Proof. exact names_set_stricter_refuted. Qed.
 Print Assumptions c09_names_set_stricter_refuted.
 
-(* Coordinates that are not finite.  The repaired snapshot writer (shrinkGeoArgs): every point and
-   rectangle (NaN, +Inf, -Inf included), and every other object with finite coordinates, is read
-   back with the same type and coordinates.  Partial: other geometries with an infinite coordinate
-   (geo_other_nonfinite_refuted). *)
+(* Coordinates the GeoJSON text cannot carry.  The repaired snapshot writer (shrinkGeoArgs), with or
+   without REQUIREVALID (rv): every point and rectangle POINT / BOUNDS can create (NaN, +Inf, -Inf,
+   positions outside -180..180 / -90..90 included), and every other object the same server accepted
+   through the GeoJSON reader (finite coordinates; valid ones under REQUIREVALID), is read back with
+   the same type and coordinates.  Partial: other geometries with an infinite coordinate
+   (c09_geo_other_nonfinite_refuted). *)
 Theorem c09_geo_roundtrip_partial :
-  forall g,
-    match g with GOther k cs => bytes_eqb k k_point = false /\ forallb finite cs = true | _ => True end ->
-    option_map coords (dec (enc g)) = Some (coords g).
+  forall rv g,
+    match g with
+    | GOther k cs => bytes_eqb k k_point = false /\ forallb finite cs = true /\ (rv = true -> forallb valid cs = true)
+    | _ => True
+    end ->
+    option_map coords (dec rv (enc g)) = Some (coords g).
 Proof. exact geo_roundtrip. Qed.
 Print Assumptions c09_geo_roundtrip_partial.
 
 (* pinned writer: POINT 1 inf comes back as POINT 1 NaN; BOUNDS 1 2 nan 4 is refused at load *)
 Theorem c09_geo_orig_refuted :
-  (exists g g', dec (enc_orig g) = Some g' /\ coords g' <> coords g) /\
-  (exists g, dec (enc_orig g) = None).
+  (exists g g', dec false (enc_orig g) = Some g' /\ coords g' <> coords g) /\
+  (exists g, dec false (enc_orig g) = None).
 Proof. exact geo_orig_refuted. Qed.
 Print Assumptions c09_geo_orig_refuted.
 
+(* the writer that only looks for non-finite coordinates, under REQUIREVALID: POINT 100 200 is accepted,
+   written as a GeoJSON Point and refused at load (the server does not start); the repaired writer
+   gives it back *)
+Theorem c09_geo_requirevalid_refuted :
+  exists g, dec true (enc_finite g) = None /\ option_map coords (dec false (enc_finite g)) = Some (coords g) /\
+            option_map coords (dec true (enc g)) = Some (coords g).
+Proof. exact geo_requirevalid_refuted. Qed.
+Print Assumptions c09_geo_requirevalid_refuted.
+
 (* open finding C09-object-overflow-coordinate: a LineString with an infinite coordinate *)
 Theorem c09_geo_other_nonfinite_refuted :
-  exists k cs, bytes_eqb k k_point = false /\ dec (enc (GOther k cs)) = None.
+  exists k cs, bytes_eqb k k_point = false /\ dec false (enc (GOther k cs)) = None.
 Proof. exact geo_other_nonfinite_refuted. Qed.
 Print Assumptions c09_geo_other_nonfinite_refuted.
 
@@ -149,12 +163,14 @@ Example c09_ex_names :
   replay_n trim_ws trim_ws trim_ws (map rec_of (flatten s)) [] = Some s.
 Proof. vm_compute. repeat split; reflexivity. Qed.
 
-(* non-finite payloads: what the repaired writer emits and what comes back *)
+(* payloads: what the repaired writer emits and what comes back *)
 Example c09_ex_geo :
-  enc (GPoint (Fin t1) PInf) = PPoint [Fin t1; PInf] /\
+  enc (GPoint (Fin t1 true) PInf) = PPoint [Fin t1 true; PInf] /\
   enc (GRect NInf NInf PInf PInf) = PBounds [NInf; NInf; PInf; PInf] /\
-  enc (GPointZ (Fin t1) (Fin t2) NaN) = PPoint [Fin t1; Fin t2; NaN] /\
-  enc (GPoint (Fin t1) (Fin t2)) = PObject k_point [JNum t2; JNum t1] /\
-  dec (enc (GRect (Fin t1) (Fin t2) (Fin t4) (Fin t5))) =
-    Some (GOther k_polygon [Fin t2; Fin t1; Fin t5; Fin t1; Fin t5; Fin t4; Fin t2; Fin t4; Fin t2; Fin t1]).
+  enc (GPointZ (Fin t1 true) (Fin t2 true) NaN) = PPoint [Fin t1 true; Fin t2 true; NaN] /\
+  enc (GPoint (Fin t100 false) (Fin t200 false)) = PPoint [Fin t100 false; Fin t200 false] /\
+  enc (GPoint (Fin t1 true) (Fin t2 true)) = PObject k_point [JNum t2 true; JNum t1 true] /\
+  dec true (enc (GRect (Fin t1 true) (Fin t2 true) (Fin t4 true) (Fin t5 true))) =
+    Some (GOther k_polygon [Fin t2 true; Fin t1 true; Fin t5 true; Fin t1 true; Fin t5 true; Fin t4 true;
+                            Fin t2 true; Fin t4 true; Fin t2 true; Fin t1 true]).
 Proof. vm_compute. repeat split; reflexivity. Qed.
